@@ -23,22 +23,13 @@ from .. import roles
 from ..model import AnalysisError, dotted, src
 from . import c04
 
-TECHNIQUE = "sibling-agreement of class sets, ordering rule in the rewrite loop, writes_to vs executor write signatures, invalidation rule for tracked register values; abstract interpretation of small functions over an enumerated finite domain by the checker's own AST interpreter (static analysis)"
-ENGINES = ["model", "flow", "instrs", "circuit"]
+TECHNIQUE = "differential abstract execution of programs before and after NVSubroutineTranspiler.transpile() on the repository's Executor (checker's AST interpreter; registers and gate operators compared); writes_to vs executor write signatures; tracked register values and scratch register executed; sibling agreement of jump-class sets for the REIDS transpiler and the executor (static analysis)"
+ENGINES = ["model", "flow", "instrs", "circuit", "session"]
 EXPLANATION = (
-    "Over sdk/transpile.py, lang/instr/core.py and backend/executor.py: the isinstance set used to retarget jumps in the NV "
-    "transpiler, the set scanned by the REIDS transpiler, the set dispatched to Executor._handle_branch_instr and the set of core "
-    "classes owning a `line` target must coincide; in the rewrite loop the old->new index is recorded unconditionally before the "
-    "expansion is appended; the past-the-end target is mapped to len(new_commands) on the same path that sets the no-op flag and the "
-    "no-op is appended under exactly that flag; writes_to() of each class equals the register operand written by its executor "
-    "handler (C04 signatures); every write to a Q register by an instruction other than `set` must drop the tracked value; the scratch register for carbon-carbon gates is chosen outside a set that receives every Register operand of every instruction and never shrinks."
-    ' C08.I: no early exit in the rewrite loop and, after it, the new command list may only grow at its end. C08.Z: no truthiness test on an int-typed value.'
-    ' C08.E additionally executes NV transpile() abstractly on two 7-instruction programs (expansions of 2 and 3 marker instructions, with and without a jump past the end): jump targets, order of kept / expanded commands, the trailing no-op; the all-paths rules on the rewrite loop stay in force.'
-    ' C08.V / C08.U execute transpile() with the two-qubit handler modelled and the real get_unused_register on programs that set, overwrite, load and compute into Q registers (4, 15 and 16 registers named): tracked values at each gate, scratch register named by no instruction so far, exhaustion. C08.D: the decomposition rules of C07 under this id.'
+    "Over sdk/transpile.py, lang/instr/core.py and backend/executor.py. C08.X (abstract execution, differential): 60 vanilla programs parsed by the repository's parser run on the repository's Executor before and after NVSubroutineTranspiler.transpile() - every branch class taken / not taken jumping forward over a gate, to the very end, backward in a counted loop, to instruction 0 of a later subroutine; gates whose NV expansions differ in length; zero-angle rotations before a target; a register set on one path only and again after the join; the no-op's constant in the program; every C register in use: the classical registers (a marker counts basic blocks) and the operator applied to the qubits (recorded gates multiplied out, up to a global phase) must agree. C08.J: the jump-class set scanned by the REIDS transpiler = dispatched to the executor's branch handler = every core class with a `line` target. C08.E: the REIDS transpiler flags a jump to the position just past the end. C08.W: writes_to() of each class equals the register operand written by its executor handler. C08.V / C08.U execute transpile() with the two-qubit handler modelled and the real get_unused_register on programs that set, overwrite, load and compute into Q registers (4, 15 and 16 registers named): tracked values at each gate, scratch register outside everything named, exhaustion raises. C08.D = the decomposition rules of C07. C08.Z: no truthiness test on an int-typed value."
 )
 LEVEL_TEXT = (
-    "Static analysis, partial: the structural conditions of jump retargeting and of the Q-register value tracking are decided for all "
-    "classes. Not decided: end-to-end state equality, flow-insensitivity of the tracking across branches, scratch-register liveness."
+    "Abstract execution (differential, before / after transpilation) over an enumerated family of programs for jump retargeting and gate mapping; executed rules for the tracked register values and the scratch register; static rules for writes_to and for the REIDS transpiler. Not decided: programs outside the family; the REIDS rewrite beyond its jump scan."
 )
 LEVEL_NOTE = "flow-insensitive register tracking across branches is a known limitation of the transpiler that this check does not decide"
 ASSUMPTIONS = [LEVEL_NOTE]
